@@ -93,6 +93,7 @@ func (mb *mbox) removeMessage(id string) error {
 	}
 	// There are still messages in the index
 	log.Debug().Str("module", "storage").Str("path", msg.rawPath()).Msg("Deleting file")
+	verifStep("unlink-raw", msg.rawPath())
 	return os.Remove(msg.rawPath())
 }
 
@@ -162,6 +163,7 @@ func (mb *mbox) writeIndex() error {
 		// Write a new index beside the live one, then replace it atomically; a crash while
 		// writing must not leave a truncated index behind.
 		tmpPath := mb.indexPath + ".tmp"
+		verifStep("create-tmp", tmpPath)
 		file, err := os.Create(tmpPath)
 		if err != nil {
 			return err
@@ -179,15 +181,18 @@ func (mb *mbox) writeIndex() error {
 				return err
 			}
 		}
+		verifStep("flush-tmp", tmpPath)
 		if err := writer.Flush(); err != nil {
 			_ = file.Close()
 			return err
 		}
+		verifStep("close-tmp", tmpPath)
 		if err := file.Close(); err != nil {
 			log.Error().Str("module", "storage").Str("path", mb.indexPath).Err(err).
 				Msg("Failed to close")
 			return err
 		}
+		verifStep("rename", mb.indexPath)
 		if err := os.Rename(tmpPath, mb.indexPath); err != nil {
 			return err
 		}
@@ -202,6 +207,7 @@ func (mb *mbox) writeIndex() error {
 // createDir checks for the presence of the path for this mailbox, creates it if needed
 func (mb *mbox) createDir() error {
 	if _, err := os.Stat(mb.path); err != nil {
+		verifStep("mkdirall", mb.path)
 		if err := os.MkdirAll(mb.path, 0770); err != nil {
 			log.Error().Str("module", "storage").Str("path", mb.path).Err(err).
 				Msg("Failed to create directory")
@@ -214,10 +220,12 @@ func (mb *mbox) createDir() error {
 // removeDir removes the mailbox, plus empty higher level directories
 func (mb *mbox) removeDir() error {
 	// remove the index first: without it the mailbox reads as empty, whatever is left behind
+	verifStep("unlink-index", mb.indexPath)
 	if err := os.Remove(mb.indexPath); err != nil && !os.IsNotExist(err) {
 		return err
 	}
 	// remove mailbox dir
+	verifStep("removeall", mb.path)
 	if err := os.RemoveAll(mb.path); err != nil {
 		return err
 	}
@@ -246,6 +254,7 @@ func removeDirIfEmpty(path string) (removed bool) {
 		return false
 	}
 	log.Debug().Str("module", "storage").Str("path", path).Msg("Removing dir")
+	verifStep("rmdir-parent", path)
 	err = os.Remove(path)
 	if err != nil {
 		log.Error().Str("module", "storage").Str("path", path).Err(err).Msg("Failed to remove")
